@@ -225,3 +225,12 @@ def run(ctx):
   ctx.check(ok_e, 'C05.key', construct(owner), 'every enum member is defined through constant(), which raises for a name that is already defined',
             'some enum members are skipped before constant() is called: a duplicate definition coming from an enum is silently ignored and the name keeps '
             'its earlier value', owner.loc(), instance='enum-members-all')
+
+  # a constant survives clear_config() as the very object that was defined: the saved copy keeps the stored objects
+  smc_ = ctx.cls('selector_map.SelectorMap').methods.get('copy')
+  if smc_ is not None:
+    vm_ = [a for a in walk_local(smc_.node) if isinstance(a, ast.Assign) and isinstance(a.targets[0], ast.Attribute) and a.targets[0].attr == '_selector_map']
+    ctx.check(bool(vm_) and all(copy_kind(a.value) == 'SHALLOW' for a in vm_), 'C05.key', 'gin/selector_map.py::SelectorMap.copy',
+              'constants re-inserted by clear_config() are the stored objects themselves',
+              'SelectorMap.copy copies the stored values (`%s`): after any clear_config() `%%NAME` yields a copy, not the object given to gin.constant()'
+              % [u(a.value) for a in vm_], smc_.loc(), instance='constants-identity')
